@@ -357,6 +357,25 @@ def check_aec(run, rule):
         if lp and lp[-1] == "ae_count":
             rp = path(rhs)
             ok = rp is not None and rp[-1] == "second"
+    if not ok:
+        # the other shape: the aggregated count is handed to the item's serialiser, which writes that parameter under ae_count
+        for c in ir.calls_in(bw["body"]):
+            cal = c.get("callee") or {}
+            if cal.get("cls") != "CDNS::AddressEventCount" or not emission.struct_callee(c, facts):
+                continue
+            cands = [g for g in facts.fns(cal["qn"]) if g["sig"] == cal["sig"]]
+            if len(cands) != 1:
+                continue
+            wa_ = emission.analyse_writer(cands[0], facts)
+            for row in wa_.rows:
+                if row["name"] == "ae_count":
+                    v_ = row["value"]
+                    vp = path(v_.ev.call["args"][0]) if getattr(v_, "ev", None) is not None and v_.ev.call.get("args") else None
+                    if vp and len(vp) == 1 and vp[0].startswith("p:"):
+                        idx = [i for i, p_ in enumerate(cands[0]["params"]) if "p:%s" % p_["n"] == vp[0]]
+                        if idx and idx[0] < len(c.get("args", [])):
+                            ap = path(c["args"][idx[0]])
+                            ok = ap is not None and ap[-1] == "second"
     run.ob(rule, "CdnsBlock::write:ae_count=aggregated", ok, bw, bw["line"],
            "the aggregated count is written as ae_count" if ok else "ae_count written is not the aggregated map value")
     br = facts.fn("CDNS::CdnsBlockRead::read_generic_aec", rule=rule)
